@@ -61,6 +61,28 @@ def nested_mixture(rs):
     return Sum(children=[Product(children=[inner(v) for v in scope]) for _ in range(k)], weights=skew_weights(rs, k))
 
 
+def zero_weight_stress(rs):
+    """a mixture with a zero-weight component and evidence that this dead component explains >= 2^20 times
+    better than the live ones: the sampler must still follow the live components only (branch law
+    w_k * val_k(r), not (w_k + eps) * val_k(r) or max(w_k, eps) * val_k(r)).  Returns (root, evidence dict)."""
+    from deeprob.spn.structure.leaf import Bernoulli
+    from deeprob.spn.structure.node import Sum, Product
+    n = int(rs.randint(4, 6)); scope = G.rand_scope(rs, n, spread=1)
+    hi, lo = 1.0 - 2.0 ** -10, 2.0 ** -10
+    k = int(rs.randint(3, 5)); pos = int(rs.randint(k))
+    nobs = n - int(rs.randint(1, 3))
+    comps = []
+    for c in range(k):
+        if c == pos:
+            ps = [hi] * nobs + [float(rs.randint(12, 16) / 16.0) for _ in range(n - nobs)]
+        else:
+            ps = [lo] * nobs + [float(rs.randint(1, 5) / 16.0) for _ in range(n - nobs)]
+        comps.append(Product(children=[Bernoulli(v, float(p)) for v, p in zip(scope, ps)]))
+    w = np.insert(np.array(G.dyadic_weights(rs, k - 1), dtype=np.float64), pos, 0.0)
+    root = Sum(children=comps, weights=w.astype(np.float32))
+    return root, {int(v): 1 for v in scope[:nobs]}
+
+
 def clt_chain_or_tree(rs, n):
     return G.rand_clt(rs, list(range(n)))
 
@@ -171,7 +193,11 @@ def build_test(rs, root, label, obs_mode, N):
     contvars = sorted({int(o.scope[0]) for o in objs if is_cont(o)})
     joint = sample(root, np.full((1, width), np.nan, dtype=np.float32))[0]
     # which variables are observed
-    if obs_mode == "none":
+    if isinstance(obs_mode, dict):          # prescribed evidence values
+        obs = sorted(obs_mode)
+        for v, val in obs_mode.items():
+            joint[v] = val
+    elif obs_mode == "none":
         obs = []
     elif isinstance(obs_mode, (list, tuple)):
         obs = list(obs_mode)
@@ -283,12 +309,14 @@ def oracle(t, eps):
 def plan(rs, tier):
     """list of (label, builder, obs_mode)."""
     P = []
-    reps = 1 if tier == "quick" else 4
+    reps = 2 if tier == "quick" else 6
     for _ in range(reps):
         for k in (2, 3, 4, 5):
             P.append((f"mixture{k}", (lambda k=k: mixture(rs, k)), "none"))
             P.append((f"mixture{k}-evidence", (lambda k=k: mixture(rs, k)), "rand"))
         P.append(("mixture3", (lambda: mixture(rs, 3)), "none"))
+        P.append(("zero-weight-stress", (lambda: zero_weight_stress(rs)), "stress"))
+        P.append(("zero-weight-stress", (lambda: zero_weight_stress(rs)), "stress"))
         P.append(("nested-mixture", (lambda: nested_mixture(rs)), "none"))
         P.append(("nested-mixture-evidence", (lambda: nested_mixture(rs)), "rand"))
         for i in range(8):
@@ -343,7 +371,9 @@ def main(tier, seed, replay=None):
         t = None
         for _ in range(20):
             root = build()
-            if mode.startswith("clt:"):
+            if mode == "stress":
+                root, obs = root
+            elif mode.startswith("clt:"):
                 obs = clt_obs(rs, root, mode[4:])
             elif mode == "cont:contobs":
                 obs = sorted({int(o.scope[0]) for o in G.post_order(root) if is_cont(o)})
@@ -398,7 +428,7 @@ def main(tier, seed, replay=None):
             else:
                 groups[-1].append(z)
         for t, codes in zip(meta, groups):
-            head, cellcodes = codes[:4], codes[4:]
+            head, cellcodes = codes[:5], codes[5:]
             for c, k, code in zip(t["cells"], t["counts"], cellcodes):
                 rep.count(dict(c=t["tab"].brief(), r=t["xrow"].tolist(), cell=c), nontrivial=True)
             bad_model = [h for h in head if h] + [c for c in cellcodes if c & 4]
@@ -406,7 +436,7 @@ def main(tier, seed, replay=None):
             if bad_model:
                 rep.violation(dict(kind="model-side-check-failed", header=head, test=t["label"], circuit=t["tab"].brief(),
                                    evidence_row=t["xrow"].tolist(),
-                                   what="64 invalid table / 32 total<>val(r) / 8 zero-probability evidence / 2 mass outside cells / 4 mass(c)<>val(c)"),
+                                   what="64 invalid table / 16 theorem side condition (duplicate key, zero normaliser) / 32 total<>val(r) / 8 zero-probability evidence / 2 mass outside cells / 4 mass(c)<>val(c)"),
                               False)
             if bad_cells:
                 orc = oracle(t, eps)
@@ -421,7 +451,7 @@ def main(tier, seed, replay=None):
                         frequencies=[dict(cell=c, freq=k / t["N"]) for c, k in zip(t["cells"], t["counts"])][:8]))
     if replay:
         print(open(replay).read()[:3000])
-    rep.cov["rule"] = ("tests = skewed mixtures of 2-5 product components (Bernoulli / Categorical leaves), nested skewed mixtures, random valid "
+    rep.cov["rule"] = ("tests = skewed mixtures of 2-5 product components (Bernoulli / Categorical leaves), nested skewed mixtures, zero-weight stress mixtures (a zero-weight component favoured by the evidence by >= 2^20), random valid "
                        "DAGs with sharing and CLT leaves, stand-alone Chow-Liu trees (2-5 variables; evidence on the root, on an inner node, on "
                        "a leaf of the tree, random, none), mixtures over a Gaussian/Uniform/Isotonic variable (8 quantile bins; also observed, "
                        "sampling the discrete rest); evidence values are drawn from the model; one evaluation = one (circuit, evidence row, "
